@@ -69,7 +69,7 @@ def run(tier):
     cov = tally.coverage(exhaustive=True)
     cov["traces_validated_against_impl"] = verdicts.get("accept", 0) + tally.oracle
     cov["trace_validation"] = {"random_programs": n, "verdicts": dict(verdicts), "not_validated": dict(skipped),
-                               "tlc_states": r.distinct if out else 0}
+                               "tlc_states": r.distinct if r else 0}
     v.coverage = cov
     v.assumptions = ["numbers are exact quarters; results outside (-0, NaN, inf, non-quarter quotients) are 'Unmodelled' and not used as oracle",
                      "undocumented behaviour (bool ordering, arrays in interpolation, round() on ties, find() offsets after non-ASCII text, empty replace/split pattern, dynamic type confusion) is 'Unspecified': any reported outcome accepted",
